@@ -66,7 +66,7 @@ def _inject(draw, node, ctr):
 @st.composite
 def _case(draw):
     # no string leaves in the colliding part: a string merged onto a !call/!bind node renames its target by design (C13)
-    leaves = S.scalar_node(st.one_of(st.none(), st.booleans(), st.integers(-3, 9), st.sampled_from([1.5, -0.5])))
+    leaves = S.scalar_or_timestamp(st.one_of(st.none(), st.booleans(), st.integers(-3, 9), st.sampled_from([1.5, -0.5])), one_in=20)
     docs = draw(S.tagged_stages(min_stages=1, max_stages=3, new=False, density=4, max_leaves=8, leaves=leaves))
     ctr = [0]
     docs = [draw(_inject(d, ctr)) for d in docs]
@@ -110,7 +110,8 @@ def strategy():
     return _case()
 
 
-BUILTIN_SCALARS = (int, float, bool, str, type(None))
+import datetime
+BUILTIN_SCALARS = (int, float, bool, str, type(None), datetime.date, datetime.datetime)      # (the last two: what yaml timestamps are)
 
 
 def _no_nodes(v, where, src, seen=None):
@@ -179,6 +180,12 @@ def mirror(node, val, path, src):
             raise Violation(f'C11: scalar node at {path} evaluated to {type(val).__name__} ({val!r}), not an exact builtin type{src}')
         if O.canon(val) != O.canon(node.ayns.native_value):
             raise Violation(f'C11: scalar at {path} evaluated to {val!r}, node holds {node.ayns.native_value!r}{src}')
+        if isinstance(val, datetime.date) and _WRITTEN_TS.get('set') is not None and val not in _WRITTEN_TS['set']:
+            # (an independent witness for timestamps: the value PyYAML reads from the text some document wrote - zone included)
+            raise Violation(f'C11: timestamp at {path} evaluated to {val!r}, which no document wrote (written: {sorted(map(repr, _WRITTEN_TS["set"]))}){src}')
+
+
+_WRITTEN_TS = {'set': None}
 
 
 def snapshot(tree):
@@ -216,6 +223,7 @@ def run_case(case):
         if type(cfg).__name__ in ('MergeError', 'PremergeError'):
             return Outcome(labels=['skip-merge-error'])
         raise Violation(f'C11: build failed unexpectedly: {type(cfg).__name__}: {str(cfg)[:500]}{src}')
+    _WRITTEN_TS['set'] = {tdoc.plain(n) for d in case['docs'] for _, n in tdoc.walk(d) if n['t'] == 'raw' and n.get('res')}
     source = cfg.ayns.source
     snap0 = snapshot(source)
     _no_nodes(cfg, 'cfg', src)
